@@ -1193,6 +1193,96 @@ pub fn in_place_polynomials<S: Sch>(rec: &mut Rec) {
     }
 }
 
+/// PST13: the commitment is a function of the POLYNOMIAL, not of how its term list is written.  `SparsePolynomial`
+/// has a public term vector; the same polynomial with its terms reversed, two terms exchanged, one monomial split
+/// over two entries, a zero-coefficient entry added, commits to the naive sum over the key and to the commitment of
+/// the canonical form, and its opening is accepted.
+pub fn pst_term_representations(rec: &mut Rec) {
+    type S = SPst;
+    for (nv, d) in [(2usize, 3usize), (3, 2)] {
+        let cfg = KeyCfg::mv(nv, d, d);
+        let mut keys: Option<Keys<S>> = None;
+        let shapes = S::shapes(&cfg, rec.seed);
+        for (sname, canon) in shapes.iter() {
+            if canon.terms().len() < 2 {
+                continue;
+            }
+            let id = format!("PST/term-representations/{}/{}", cfg.id(), sname);
+            if !rec.take(&id) {
+                continue;
+            }
+            if keys.is_none() {
+                keys = build_keys::<S>(&cfg, rec.seed).ok();
+            }
+            let keys = match &keys {
+                Some(k) => k,
+                None => return,
+            };
+            rec.dim("scheme", "PST");
+            let t: Vec<(Fr381, SparseTerm)> = canon.terms().to_vec();
+            let mut variants: Vec<(&str, Vec<(Fr381, SparseTerm)>)> = Vec::new();
+            variants.push(("reversed", t.iter().rev().cloned().collect()));
+            let mut v = t.clone();
+            v.swap(0, 1);
+            variants.push(("first-two-exchanged", v));
+            let mut v = t.clone();
+            let k = v.len() - 1;
+            v.swap(0, k);
+            variants.push(("first-and-last-exchanged", v));
+            let half = rho::<Fr381>(rec.seed, 6);
+            let mut v = t.clone();
+            let last = v[k].clone();
+            v[k].0 = half;
+            v.push((last.0 - half, last.1.clone()));
+            variants.push(("last-monomial-split", v));
+            let mut v = t.clone();
+            let first = v[0].clone();
+            v[0].0 = half;
+            v.insert(1, (first.0 - half, first.1.clone()));
+            variants.push(("first-monomial-split", v));
+            let mut v = t.clone();
+            v.insert(1, (Fr381::zero(), t[k].1.clone()));
+            variants.push(("zero-entry", v));
+            let want = match S::expected(keys, &lp::<S>("p", canon.clone(), None, None)) {
+                Ok(w) => w,
+                Err(_) => continue,
+            };
+            let z = S::points(&cfg, rec.seed)[0].1.clone();
+            for (vn, terms) in variants {
+                let mut q = canon.clone();
+                q.terms = terms;
+                if q.evaluate(&z) != canon.evaluate(&z) {
+                    panic!("MACHINERY: rewritten term list is another polynomial");
+                }
+                rec.count_points(1);
+                rec.op(3);
+                let c = match commit_set::<S>(keys, vec![lp::<S>("p", q.clone(), None, None)], rec.seed, 0) {
+                    Ok(c) => c,
+                    Err(o) => {
+                        viol(rec, "PST", "commit/term-representation", &id, format!("commit refused the polynomial written with its terms {}: {}", vn, o.short()));
+                        continue;
+                    }
+                };
+                if ser(c.comms[0].commitment()) != ser(&want) {
+                    rec.class("representation-dependent");
+                    viol(rec, "PST", "commit/term-representation", &id, format!("the commitment of the polynomial written with its terms {} differs from the key-defined sum / the commitment of the canonical form", vn));
+                    continue;
+                }
+                rec.class("representation-independent");
+                match open_single::<S>(keys, &c, &[0], &z, 0, rec.seed, 0) {
+                    Ok(s1) => {
+                        let d = check_single::<S>(keys, &[&c.comms[0]], &z, &s1.values, &s1.proof, 0, rec.seed, 0);
+                        if !d.accepted() {
+                            viol(rec, "PST", "check/term-representation", &id, format!("opening of the polynomial written with its terms {} is not accepted: {}", vn, d.short()));
+                        }
+                    }
+                    Err(o) => viol(rec, "PST", "open/term-representation", &id, format!("open failed for the polynomial written with its terms {}: {}", vn, o.short())),
+                }
+            }
+        }
+    }
+}
+
 pub fn run(rec: &mut Rec) {
     let max_len = if rec.thorough() { 5 } else { 4 };
     group_scheme::<SMar>(rec, max_len);
@@ -1209,6 +1299,7 @@ pub fn run(rec: &mut Rec) {
     group_ladder::<SPst>(rec);
     special_ladder(rec);
     folding_commitments(rec);
+    pst_term_representations(rec);
     crate::for_each_scheme!(S, {
         in_place_polynomials::<S>(rec);
     });
